@@ -208,6 +208,82 @@ theorem spec_pass_streak (F P : Nat) (n : Nat) (hn : n ≤ P) (hP : 1 ≤ P) :
     · have : ¬ (m + 1 ≥ P) := by omega
       simp [he, this]
 
+/-- trailing run of outcome `b` in a trace given latest-first -/
+def trail (b : Bool) (l : List Bool) : Nat := (l.takeWhile (· == b)).length
+
+/-- **C23 (1b)** What the automaton's counter means, for every check trace since the host
+(re)appeared (`l` lists the outcomes latest first): while healthy the counter is the number of
+checks that failed in a row up to now (and is below `Fails`), while unhealthy it is the number of
+checks that passed in a row up to now (and is below `Passes`). -/
+theorem spec_counter_is_streak (F P : Nat) (hF : 1 ≤ F) (hP : 1 ≤ P) (l : List Bool) :
+    let σ := l.foldr (fun x σ => spCheck F P σ x) (true, 0)
+    (σ.1 = true → σ.2 = trail false l ∧ σ.2 < F) ∧ (σ.1 = false → σ.2 = trail true l ∧ σ.2 < P) := by
+  induction l with
+  | nil => simp [trail]; omega
+  | cons x l ih =>
+    simp only [List.foldr_cons]
+    generalize l.foldr (fun x σ => spCheck F P σ x) (true, 0) = σ at ih ⊢
+    obtain ⟨b, k⟩ := σ
+    simp only at ih
+    cases b <;> cases x
+    · -- unhealthy, failed
+      simp [spCheck, trail]; omega
+    · -- unhealthy, passed
+      have h := ih.2 rfl
+      by_cases hk : k + 1 ≥ P
+      · simp [spCheck, hk, trail]; omega
+      · simp only [spCheck, hk, if_false]
+        refine ⟨by simp, fun _ => ?_⟩
+        simp only [trail, List.takeWhile_cons, beq_self_eq_true, if_true, List.length_cons] at h ⊢
+        omega
+    · -- healthy, failed
+      have h := ih.1 rfl
+      by_cases hk : k + 1 ≥ F
+      · simp [spCheck, hk, trail]; omega
+      · simp only [spCheck, hk, if_false]
+        refine ⟨fun _ => ?_, by simp⟩
+        simp only [trail, List.takeWhile_cons, beq_self_eq_true, if_true, List.length_cons] at h ⊢
+        omega
+    · -- healthy, passed
+      simp [spCheck, trail]; omega
+
+/-- … hence a healthy host is reported unhealthy by a check exactly when that check is the
+`Fails`-th failure in a row, and an unhealthy host is reported healthy again exactly when it is the
+`Passes`-th pass in a row — whatever happened before. -/
+theorem spec_trips_exactly (F P : Nat) (hF : 1 ≤ F) (hP : 1 ≤ P) (l : List Bool) (x : Bool) :
+    let σ := l.foldr (fun x σ => spCheck F P σ x) (true, 0)
+    let σ' := (x :: l).foldr (fun x σ => spCheck F P σ x) (true, 0)
+    (σ.1 = true → (σ'.1 = false ↔ (x = false ∧ trail false (x :: l) = F))) ∧
+    (σ.1 = false → (σ'.1 = true ↔ (x = true ∧ trail true (x :: l) = P))) := by
+  have ih := spec_counter_is_streak F P hF hP l
+  simp only [List.foldr_cons]
+  generalize l.foldr (fun x σ => spCheck F P σ x) (true, 0) = σ at ih ⊢
+  obtain ⟨b, k⟩ := σ
+  simp only at ih
+  cases b <;> cases x
+  · simp [spCheck]
+  · have h := ih.2 rfl
+    by_cases hk : k + 1 ≥ P
+    · simp only [spCheck, hk, if_true, trail, List.takeWhile_cons, beq_self_eq_true, List.length_cons] at h ⊢
+      simp at h ⊢; omega
+    · simp only [spCheck, hk, if_false, trail, List.takeWhile_cons, beq_self_eq_true, if_true, List.length_cons] at h ⊢
+      simp at h ⊢; omega
+  · have h := ih.1 rfl
+    by_cases hk : k + 1 ≥ F
+    · simp only [spCheck, hk, if_true, trail, List.takeWhile_cons, beq_self_eq_true, List.length_cons] at h ⊢
+      simp at h ⊢; omega
+    · simp only [spCheck, hk, if_false, trail, List.takeWhile_cons, beq_self_eq_true, if_true, List.length_cons] at h ⊢
+      simp at h ⊢; omega
+  · simp [spCheck]
+
+/-- the chronological form: the automaton over check events since the host appeared is `spCheck`
+folded over the outcomes -/
+theorem spec_checks_fold (F P : Nat) (es : List Bool) (σ : Bool × Nat) :
+    (es.map Ev.check).foldl (spStep F P) (some σ) = some (es.foldl (spCheck F P) σ) := by
+  induction es generalizing σ with
+  | nil => rfl
+  | cons e es ih => simp only [List.map_cons, List.foldl_cons, spStep]; exact ih _
+
 /-- `Run` checks the hosts concurrently: the per-host updates commute, so the order is irrelevant. -/
 theorem update_comm (cfg : Config) (s : State) (a b : Host) (oka okb : Bool) (hab : a ≠ b) :
     update cfg (update cfg s a oka) b okb = update cfg (update cfg s b okb) a oka := by
